@@ -33,11 +33,39 @@ class Raised(BaseException):
 
 
 class Clock:
+    """Stands in for the `time` module of the code under test: a wall clock and a monotonic clock that advance together but
+    have different origins (as the real ones do), so that stamps of one must not be compared with the other."""
     now = 10 ** 12
+    MONO_ORIGIN = 10 ** 12 - 5 * 10 ** 9       # the monotonic clock started five seconds ago
 
     @classmethod
     def time_ns(cls):
         return cls.now
+
+    @classmethod
+    def time(cls):
+        return cls.now / 1e9
+
+    @classmethod
+    def monotonic_ns(cls):
+        return cls.now - cls.MONO_ORIGIN
+
+    @classmethod
+    def monotonic(cls):
+        return (cls.now - cls.MONO_ORIGIN) / 1e9
+
+    perf_counter_ns = monotonic_ns
+    perf_counter = monotonic
+
+    @staticmethod
+    def sleep(seconds):
+        return None
+
+    @classmethod
+    def since(cls, stamp: int) -> int:
+        """nanoseconds elapsed since `stamp`, whichever of the two clocks it was read from (their ranges are far apart): the
+        harness does not prescribe which clock the code under test uses, only that it uses one consistently"""
+        return (cls.monotonic_ns() if stamp < cls.now // 2 else cls.now) - stamp
 
 
 class Net:
@@ -247,7 +275,7 @@ class World:
         out = {"sidx": {}, "inflight": {}, "net": {}, "acked": {}, "delivered": {}, "raised": dict(self.raised)}
         for e, sender, lst in (("ctrl", self.b.sender, self.b.mlistener), ("exec", self.e.sender, self.e.mlistener)):
             out["sidx"][e] = sender.idx
-            out["inflight"][e] = {i: [r.remaining, r.at < now - sender.resend_grace] for i, r in sender.inflight.items()}
+            out["inflight"][e] = {i: [r.remaining, Clock.since(r.at) > sender.resend_grace] for i, r in sender.inflight.items()}
             out["net"][e] = {f"{k[0]}:{k[1]}": n for k, n in sorted(self.bag(e).items())}
             out["acked"][e] = acked_view(lst)
             out["delivered"][e] = list(self.delivered[e])
